@@ -61,7 +61,7 @@ def candViews (m : Machine) (s : StateId) (e : EventId) : List View :=
   ((out m s).filter (matchesEv · e)).map (view e)
 
 structure MEquiv (m₁ m₂ : Machine) : Prop where
-  behav : m₁.behav = m₂.behav
+  behav : m₁.behav = m₂.behav ∧ m₁.resVal = m₂.resVal
   truthy : m₁.truthy = m₂.truthy
   allow : m₁.allow = m₂.allow
   startValue : m₁.startValue = m₂.startValue
@@ -71,17 +71,17 @@ structure MEquiv (m₁ m₂ : Machine) : Prop where
 section
 variable {m₁ m₂ : Machine}
 
-theorem runCb_congr (h : Nested) (hb : m₁.behav = m₂.behav) (x : Ctx) (ph : Phase) (cb : CbId) :
+theorem runCb_congr (h : Nested) (hb : m₁.behav = m₂.behav ∧ m₁.resVal = m₂.resVal) (x : Ctx) (ph : Phase) (cb : CbId) :
     runCb h m₁ x ph cb = runCb h m₂ x ph cb := by
-  simp only [runCb, hb]
+  simp only [runCb, hb.1, retOf, hb.2]
 
-theorem runGroup_congr (h : Nested) (hb : m₁.behav = m₂.behav) (x : Ctx) (ph : Phase) (l : List CbId) :
+theorem runGroup_congr (h : Nested) (hb : m₁.behav = m₂.behav ∧ m₁.resVal = m₂.resVal) (x : Ctx) (ph : Phase) (l : List CbId) :
     runGroup h m₁ x ph l = runGroup h m₂ x ph l := by
   induction l with
   | nil => rfl
   | cons c cs ih => simp only [runGroup, ih, runCb_congr h hb]
 
-theorem runConds_congr (h : Nested) (hb : m₁.behav = m₂.behav) (ht : m₁.truthy = m₂.truthy) (x : Ctx)
+theorem runConds_congr (h : Nested) (hb : m₁.behav = m₂.behav ∧ m₁.resVal = m₂.resVal) (ht : m₁.truthy = m₂.truthy) (x : Ctx)
     (l : List (CbId × Bool)) : runConds h m₁ x l = runConds h m₂ x l := by
   induction l with
   | nil => rfl
